@@ -19,11 +19,18 @@ type prStream struct {
 	RelT    int  `json:"relt,omitempty"` // 0 reliable, 1 rexmit, 2 timed
 	RelV    int  `json:"relv,omitempty"`
 	RecvCfg bool `json:"recvcfg,omitempty"` // receiver opens the stream too and configures it like the sender
+	// SwitchMs > 0: at that instant the writer flips the ordering of the stream (same
+	// reliability): ordered and unordered messages then share one identifier, and a skip may
+	// have to name both kinds. The order of delivery is not judged for such a stream.
+	SwitchMs int `json:"switchms,omitempty"`
 }
 
 type prScn struct {
 	Sc      vfE1       `json:"sc"`
 	Streams []prStream `json:"streams"`
+	// Stall > 0: readers stall for that many ms behind small receive buffers; a chunk that
+	// arrives at a closed window is dropped by the receiver, which is as good as a network loss
+	Stall int `json:"stall,omitempty"`
 }
 
 // genPR: focus = 6 (C06: policy mixes) or 7 (C07: position control of abandoned messages)
@@ -32,6 +39,15 @@ func genPR(rt *rapid.T, focus int) prScn {
 	o := vfGenOpts{minRBuf: 60000}
 	x.Sc.Cfg[0] = genSideCfg(rt, "a", o)
 	x.Sc.Cfg[1] = genSideCfg(rt, "b", o)
+	// a quarter of the scenarios run against readers that stall for a while behind a small
+	// receive buffer: the window closes, chunks travel as zero-window probes (and get lost)
+	stall := 0
+	if rapid.IntRange(0, 3).Draw(rt, "stall") == 0 {
+		stall = rapid.SampledFrom([]int{1500, 4000, 9000}).Draw(rt, "stallms")
+		rb := rapid.SampledFrom([]int{3000, 8000, 16000}).Draw(rt, "stallrbuf")
+		x.Sc.Cfg[0].RBuf, x.Sc.Cfg[1].RBuf = rb, rb
+		x.Stall = stall
+	}
 	// PR needs moderate RTO.max to keep virtual runs short; both values are legal
 	il := x.Sc.Cfg[0].IL && x.Sc.Cfg[1].IL
 	ns := rapid.IntRange(1, 4).Draw(rt, "nstreams")
@@ -54,6 +70,13 @@ func genPR(rt *rapid.T, focus int) prScn {
 			x.Sc.Acts = append(x.Sc.Acts, vfAct{AtMs: 0, Side: 1 - st.Side, Kind: "setrel", SID: st.SID, Unord: st.Unord, RelT: st.RelT, RelV: st.RelV})
 		}
 	}
+	for i := range x.Streams {
+		st := &x.Streams[i]
+		if rapid.IntRange(0, 4).Draw(rt, "switch") == 0 {
+			st.SwitchMs = rapid.SampledFrom([]int{1, 2, 301, 601, 2501}).Draw(rt, "switchms")
+			x.Sc.Acts = append(x.Sc.Acts, vfAct{AtMs: st.SwitchMs, Side: st.Side, Kind: "setrel", SID: st.SID, Unord: !st.Unord, RelT: st.RelT, RelV: st.RelV})
+		}
+	}
 	nw := rapid.IntRange(1, 14).Draw(rt, "nwrites")
 	var msgStream []int
 	for i := 0; i < nw; i++ {
@@ -72,6 +95,16 @@ func genPR(rt *rapid.T, focus int) prScn {
 		if size > 20000 {
 			size = 20000
 		}
+		if stall > 0 {
+			// single-chunk messages only: with a buffer this small, first fragments of a few
+			// messages would fill it for good (no room for the fragments that complete them)
+			if size > mp {
+				size = mp
+			}
+			if q := x.Sc.Cfg[1-st.Side].RBuf / 4; size > q {
+				size = q
+			}
+		}
 		ppi := 53
 		if rapid.IntRange(0, 7).Draw(rt, "dcep") == 0 {
 			ppi = 50
@@ -79,6 +112,11 @@ func genPR(rt *rapid.T, focus int) prScn {
 		at := 1 + rapid.IntRange(0, 3).Draw(rt, "wat")*rapid.SampledFrom([]int{0, 1, 300, 2500}).Draw(rt, "wgap")
 		x.Sc.Acts = append(x.Sc.Acts, vfAct{AtMs: at, Side: st.Side, Kind: "write", SID: st.SID, Size: size, PPI: ppi})
 		msgStream = append(msgStream, si)
+	}
+	if stall > 0 {
+		for side := 0; side < 2; side++ {
+			x.Sc.Acts = append(x.Sc.Acts, vfAct{AtMs: 0, Side: side, Kind: "pause"}, vfAct{AtMs: stall, Side: side, Kind: "resume"})
+		}
 	}
 	sort.SliceStable(x.Sc.Acts, func(i, j int) bool { return x.Sc.Acts[i].AtMs < x.Sc.Acts[j].AtMs })
 	// a third of the scenarios start with stream sequence numbers / message ids just below their wrap
@@ -265,10 +303,10 @@ func runPR(t *testing.T, x prScn, prop string, verbose bool) vfCase {
 				if m := vfCheckExact(k, wd, rd); m != "" {
 					c.fail("dcep-not-reliable-ordered", "DCEP messages: %s; %s", m, vfDescribeStall(s, out))
 				}
-				msg, idx := vfCheckSubset(k, wo, ro, !st.Unord)
+				msg, idx := vfCheckSubset(k, wo, ro, !st.Unord && st.SwitchMs == 0)
 				if msg != "" {
 					sig := "pr-delivery-corrupt"
-					if !st.Unord {
+					if !st.Unord && st.SwitchMs == 0 {
 						sig = "pr-delivery-order-or-corrupt"
 					}
 					c.fail(sig, "%s", msg)
@@ -291,7 +329,7 @@ func runPR(t *testing.T, x prScn, prop string, verbose bool) vfCase {
 							if firstMissing < 0 {
 								firstMissing = i
 							}
-							if !touched[m.ID] {
+							if !touched[m.ID] && x.Stall == 0 {
 								c.fail("untouched-message-lost", "PR stream %+v (unordered=%v relT=%d relV=%d): message id=%d size=%d was never hit by a fault yet was not delivered (%d of %d delivered); %s",
 									k, st.Unord, st.RelT, st.RelV, m.ID, m.Size, len(ro), len(wo), vfDescribeStall(s, out))
 							}
